@@ -219,6 +219,10 @@ func runC11(c *core.Ctx, idx int) {
 			// the same literal twice in one filter, under a case-insensitive and a case-sensitive operator
 			{"icontains and =", "f icontains " + lit + " and f = " + lit, func(row string) bool { return row == s }, false},
 			{"= and icontains", "f = " + lit + " and f icontains " + lit, func(row string) bool { return row == s }, false},
+			// two comparisons of one field joined by or: each keeps its own operator
+			{"= other or contains lit", `f = "zz-other" or f contains ` + lit, func(row string) bool { return row == "zz-other" || strings.Contains(row, s) }, false},
+			{"= lit or != lit", "f = " + lit + ` or f != ` + lit, func(row string) bool { return true }, false},
+			{"= other or > lit", `f = "zz-other" or f > ` + lit, func(row string) bool { return row == "zz-other" || row > s }, false},
 			// two comparisons over the same set in one filter: each looks at the whole set
 			{"anyOf in, after a miss on the same set", `anyOf(tags) in ["zz-none"] or anyOf(tags) in [` + lit + "]", nil, true},
 			{"anyOf contains, after a miss on the same set", `anyOf(tags) != "zz-none-a" and anyOf(tags) = ` + lit, nil, true},
